@@ -484,20 +484,24 @@ def dedupLits : List Lit → List Lit → List Lit
 
 /-- inner loop of `try_resolve` over `prop2` for a fixed literal of `prop1`:
 `some (true, j)` = 'left', `some (false, j)` = 'right' -/
-def tryResolveJ (ai : Tm) (ni : Nat) : List Lit → Nat → Option (Bool × Nat)
-  | [], _ => none
-  | (aj, nj) :: rest, j =>
-    if ai == aj && ni + 1 == nj then some (true, j)
-    else if ai == aj && ni == nj + 1 then some (false, j)
-    else tryResolveJ ai ni rest (j + 1)
+def tryResolveJ (ai : Tm) (ni : Nat) : List Lit → Option (Bool × Nat)
+  | [] => none
+  | (aj, nj) :: rest =>
+    if ai == aj && ni + 1 == nj then some (true, 0)
+    else if ai == aj && ni == nj + 1 then some (false, 0)
+    else match tryResolveJ ai ni rest with
+      | some (l, j) => some (l, j + 1)
+      | none => none
 
 /-- `try_resolve(prop1, prop2)`: `(left?, i, j)` -/
-def tryResolve : List Lit → List Lit → Nat → Option (Bool × Nat × Nat)
-  | [], _, _ => none
-  | (ai, ni) :: rest, p2, i =>
-    match tryResolveJ ai ni p2 0 with
-    | some (l, j) => some (l, i, j)
-    | none => tryResolve rest p2 (i + 1)
+def tryResolve : List Lit → List Lit → Option (Bool × Nat × Nat)
+  | [], _ => none
+  | (ai, ni) :: rest, p2 =>
+    match tryResolveJ ai ni p2 with
+    | some (l, j) => some (l, 0, j)
+    | none => match tryResolve rest p2 with
+      | some (l, i, j) => some (l, i + 1, j)
+      | none => none
 
 /-- `prop[:t] + prop[t+1:]` -/
 def removeAt : List Lit → Nat → List Lit
@@ -511,21 +515,26 @@ def resolvent (p1 p2 : List Lit) (t1 t2 : Nat) : List Lit :=
   (removeAt p2 t2).foldl (fun acc t => if acc.contains t then acc else acc ++ [t]) (removeAt p1 t1)
 
 /-- search of the first resolvable pair among `id_remain[i]`, `id_remain[j]`, `i < j`:
-for a fixed first clause, the first later clause that resolves with it -/
-def findSecond (c1 : List Lit) : List (List Lit) → Nat → Option (Nat × Bool × Nat × Nat)
-  | [], _ => none
-  | c2 :: rest, j =>
-    match tryResolve c1 c2 0 with
-    | some (l, t1, t2) => some (j, l, t1, t2)
-    | none => findSecond c1 rest (j + 1)
+for a fixed first clause, the first later clause that resolves with it (offset from the clause
+after the first one) -/
+def findSecond (c1 : List Lit) : List (List Lit) → Option (Nat × Bool × Nat × Nat)
+  | [] => none
+  | c2 :: rest =>
+    match tryResolve c1 c2 with
+    | some (l, t1, t2) => some (0, l, t1, t2)
+    | none => match findSecond c1 rest with
+      | some (j, r) => some (j + 1, r)
+      | none => none
 
-/-- `(i, j, left?, t1, t2)`: positions in the list of remaining clauses -/
-def findPair : List (List Lit) → Nat → Option (Nat × Nat × Bool × Nat × Nat)
-  | [], _ => none
-  | c1 :: rest, i =>
-    match findSecond c1 rest (i + 1) with
-    | some (j, l, t1, t2) => some (i, j, l, t1, t2)
-    | none => findPair rest (i + 1)
+/-- `(i, d, left?, t1, t2)`: positions `i` and `i + 1 + d` in the list of remaining clauses -/
+def findPair : List (List Lit) → Option (Nat × Nat × Bool × Nat × Nat)
+  | [] => none
+  | c1 :: rest =>
+    match findSecond c1 rest with
+    | some (d, r) => some (0, d, r)
+    | none => match findPair rest with
+      | some (i, r) => some (i + 1, r)
+      | none => none
 
 def setAt (xs : List (List Lit)) (i : Nat) (v : List Lit) : List (List Lit) := xs.set i v
 
@@ -536,9 +545,10 @@ def resolveLoop : Nat → List (List Lit) → List (List Lit)
   | 0, rem => rem
   | fuel + 1, rem =>
     if rem.length ≤ 1 then rem else
-    match findPair rem 0 with
+    match findPair rem with
     | none => rem
-    | some (i, j, l, t1, t2) =>
+    | some (i, d, l, t1, t2) =>
+      let j := i + 1 + d
       let ci := rem.getD i []
       let cj := rem.getD j []
       if l then
@@ -568,32 +578,39 @@ def stripAll : List Nat → List Seq → Except Err (List (List Tm))
     .ok (c :: r)
   | _, _ => .ok []
 
+/-- special case 1 of verit_th_resolution: `len(prevs) == 1 and prevs[0].prop == Not(true) and len(cl) == 0` -/
+def resSpecial1 : List Seq → List Tm → Bool
+  | [p], [] => p.prop == mkNot tt
+  | _, _ => false
+
+/-- special case 2: from `A` and `~~A <--> B` conclude `B` -/
+def resSpecial2 : List Seq → List Tm → Bool
+  | [p0, p1], [c] =>
+    match p1.prop with
+    | mkIff (mkNot (mkNot a)) r | mkEq (mkNot (mkNot a)) r => a == p0.prop && c == r
+    | _ => false
+  | _, _ => false
+
+/-- the final comparison: `set(cl_concl) <= set(cl)`, or the goal is `~~A` where `A` was computed -/
+def resAccept (concl cl : List Tm) : Bool :=
+  concl.all cl.contains ||
+  (match concl, cl with
+   | [c0], [c] => mkNot (mkNot c0) == c
+   | _, _ => false)
+
 /-- verit_th_resolution (also used for `resolution`) -/
 def thResolution (cl : List Tm) (sizes : List Nat) (ps : List Seq) : Except Err Seq :=
   if sizes.length != ps.length then .error .assertion else
   let res : Seq := ⟨unionHyps ps, mkOrs cl⟩
-  let special1 := match ps, cl with
-    | [p], [] => p.prop == mkNot tt
-    | _, _ => false
-  let special2 := match ps, cl with
-    | [p0, p1], [c] =>
-      (match p1.prop with
-       | mkIff (mkNot (mkNot a)) r | mkEq (mkNot (mkNot a)) r => a == p0.prop && c == r
-       | _ => false)
-    | _, _ => false
-  if special1 then .ok res
-  else if special2 then .ok res
+  if resSpecial1 ps cl then .ok res
+  else if resSpecial2 ps cl then .ok res
   else
     match stripAll sizes ps with
     | .error e => .error e
     | .ok prems =>
       match resolveOrder prems with
       | none => .error .index
-      | some concl =>
-        if concl.all cl.contains then .ok res
-        else match concl, cl with
-          | [c0], [c] => if mkNot (mkNot c0) == c then .ok res else .error .verit
-          | _, _ => .error .verit
+      | some concl => if resAccept concl cl then .ok res else .error .verit
 
 /-- the tier-1 rules of the clause fragment (propositional rules and resolution) -/
 inductive Rule where
@@ -771,5 +788,42 @@ def wellKinded : Rule → List Tm → List Seq → Bool
     | mkEq _ _ => false
     | _ => true
   | _, _, _ => true
+
+-- ------------------------------------------------------------------ whole proofs (proof_rec, evaluation mode)
+
+/-- a proof command: `assume` or a `step` whose premises are positions of earlier commands -/
+inductive Cmd where
+  | assume (t : Tm)
+  | step (r : Rule) (cl : List Tm) (sizes : List Nat) (prems : List Nat)
+  deriving Repr
+
+/-- `to_pts`: look the premises up among the results so far -/
+def lookupAll (acc : List Seq) : List Nat → Option (List Seq)
+  | [] => some []
+  | i :: is =>
+    match acc[i]?, lookupAll acc is with
+    | some p, some r => some (p :: r)
+    | _, _ => none
+
+/-- `ProofReconstruction.validate(is_eval=True)` restricted to tier-1 rules: `assume` gives
+`A ⊢ A`; a step is `ProofTerm(macro_name, args, prevs)`, i.e. `eval`.  The `wellKinded` test is
+not in the Python: it is true of every well-typed step and makes that assumption explicit. -/
+def runProof : List Cmd → List Seq → Except Err (List Seq)
+  | [], acc => .ok acc
+  | .assume t :: rest, acc => runProof rest (acc ++ [⟨[t], t⟩])
+  | .step r cl sizes prems :: rest, acc =>
+    match lookupAll acc prems with
+    | none => .error .index
+    | some ps =>
+      if !wellKinded r cl ps then .error .assertion else
+      match evalRule r cl sizes ps with
+      | .error e => .error e
+      | .ok s => runProof rest (acc ++ [s])
+
+/-- the formulas assumed by a proof -/
+def assumptions : List Cmd → List Tm
+  | [] => []
+  | .assume t :: rest => t :: assumptions rest
+  | .step .. :: rest => assumptions rest
 
 end Holpy.C18
